@@ -76,6 +76,11 @@ package dns
 //@   ensures hdr: ret1 == nil && e.Family != 0 ==> len(ret0) == 4 + (e.SourceNetmask + 7) / 8 && ret0[0] == e.Family / 256 && ret0[1] == e.Family % 256 && ret0[2] == e.SourceNetmask && ret0[3] == e.SourceScope
 //@   ensures fam0: ret1 == nil && e.Family == 0 ==> len(ret0) == 4 && ret0[0] == 0 && ret0[1] == 0 && ret0[2] == 0 && ret0[3] == e.SourceScope
 //@   ensures lim: ret1 == nil ==> (e.Family == 1 ==> e.SourceNetmask <= 32) && (e.Family == 2 ==> e.SourceNetmask <= 128) && e.Family <= 2
+// RFC 7871 6: ADDRESS is truncated to the number of bits SOURCE PREFIX-LENGTH gives, padded with 0 bits to the end of
+// the last octet - what goes on the wire are the leading octets of the address masked to the prefix length
+//@   callsite "CIDRMask" plen: arg0 == e.SourceNetmask && ((e.Family == 1 && arg1 == 32) || (e.Family == 2 && arg1 == 128))
+//@   callsite "Mask" bymask: ref(arg1) == ref(callres("CIDRMask")) && sliceoff(arg1) == sliceoff(callres("CIDRMask")) && len(arg1) == len(callres("CIDRMask")) && (e.Family == 2 ==> ref(arg0) == ref(e.Address) && sliceoff(arg0) == sliceoff(e.Address) && len(arg0) == 16) && (e.Family == 1 ==> len(arg0) == 4)
+//@   callsite "copy" masked: ref(arg1) == ref(callres("Mask")) && sliceoff(arg1) == sliceoff(callres("Mask")) && len(arg1) == (e.SourceNetmask + 7) / 8 && ref(arg0) == ref(b) && sliceoff(arg0) == sliceoff(b) + 4
 //@ func (*EDNS0_SUBNET).unpack [C01]
 //@   ensures len(b) < 4 ==> ret0 != nil
 //@   ensures ret0 == nil ==> e.Family == b[0]*256 + b[1] && e.SourceNetmask == b[2] && e.SourceScope == b[3] && e.Family <= 2
